@@ -175,7 +175,9 @@ ProbeFresh ==
 \* the watchdog expired, or the engine process / search thread died
 Timeout ==
   /\ Ev.ev = "timeout"
-  /\ Record(<< <<FALSE, "C07", "no bestmove: " \o Ev.why, "exactly one bestmove per go">> >>)
+  /\ Record(<< <<FALSE, "C07", "no bestmove: " \o Ev.why, "exactly one bestmove per go">>,
+               \* C09: a search interrupted by stop or quit still answers with exactly one bestmove
+               <<~(mode = "searching" /\ go.stopped), "C09", "an interrupted search (stop / quit) was not answered: " \o Ev.why, "exactly one bestmove">> >>)
   /\ mode' = "dead"
   /\ UNCHANGED <<sess, gamePos, go, lastDepth, lastNodes, lastTime, lastPV, lastScore, doneScore, nsearch, expect, ntr>>
 
@@ -215,6 +217,7 @@ Truncated ==
 End ==
   /\ Ev.ev = "end"
   /\ Record(<< <<mode # "searching", "C07", "session ended with an unanswered go", "bestmove">>,
+               <<~(mode = "searching" /\ go.stopped), "C09", "session ended (quit) with an interrupted search unanswered", "exactly one bestmove">>,
                <<expect = <<>> \/ mode = "dead", "X-protocol", "session ended with replies still owed: " \o ToString(expect), "<<>>">> >>)
   /\ UNCHANGED <<sess, mode, gamePos, go, lastDepth, lastNodes, lastTime, lastPV, lastScore, doneScore, nsearch, expect, ntr>>
 
